@@ -74,43 +74,31 @@ Qed.
 Lemma bridge_predict_nan hs : gen_predict_nan (zlen hs) = const_all None hs.
 Proof. unfold gen_predict_nan, np_full_nan, const_all. apply repeat_const. Qed.
 
-Lemma bridge_tile_index vals sp hs :
-  (if sp <? zlast hs
-   then np_index (np_tile vals (np_ceil_div (zlast hs) sp)) (map gen_fh_indexer hs)
-   else np_index vals (map gen_fh_indexer hs)) = steps_vals vals sp hs.
-Proof.
-  unfold steps_vals, np_index, np_tile, np_ceil_div. rewrite map_indexer.
-  destruct (sp <? zlast hs); reflexivity.
-Qed.
+(* Semantic proof: both sides are unfolded down to list / Z operations, every boolean test of
+   either side is case-split, and the leaves are closed by computation or by `lia` on the recorded
+   tests - so a differently nested but equivalent control structure (guard clauses, conditional
+   expressions, helpers inlined, `sp - len > 0` for `len < sp`, ...) still proves. *)
+Ltac split_bools :=
+  repeat match goal with
+         | |- context [if ?c then _ else _] =>
+             match type of c with bool => destruct c eqn:?; cbv beta iota zeta end
+         end.
 
 Theorem bridge_kernel s sp w hs : gen_kernel s sp w hs = kernel s sp w hs.
 Proof.
-  unfold gen_kernel, kernel, np_all_isnan. rewrite ?Z.gtb_ltb, ?Z.geb_leb.
-  rewrite (orb_comm (all_nan w)).
-  destruct s; cbv beta iota zeta.
-  - (* last *)
-    destruct ((zlen w =? 0) || all_nan w); [rewrite bridge_predict_nan; reflexivity|].
-    destruct (sp =? 1).
-    + unfold np_repeat, np_last, const_all. rewrite repeat_const. reflexivity.
-    + destruct (zlen w <? sp); cbv beta iota zeta; apply bridge_tile_index.
-  - (* mean *)
-    destruct ((zlen w =? 0) || all_nan w); [rewrite bridge_predict_nan; reflexivity|].
-    destruct (sp =? 1).
-    + unfold np_repeat, const_all. rewrite repeat_const. reflexivity.
-    + unfold np_reshape_cols, np_hstack, np_full_nan.
-      destruct (0 <? zlen w mod sp); cbv beta iota zeta;
-        match goal with |- context [?a =? ?a / sp * sp] => destruct (a =? a / sp * sp) end;
-        cbv beta iota zeta; try reflexivity;
-        unfold np_nanmean_axis0; cbn [fst snd]; apply bridge_tile_index.
+  unfold gen_kernel, kernel, steps_vals, gen_predict_nan, np_all_isnan, np_any_isnan, np_index,
+    np_tile, np_ceil_div, np_repeat, np_last, np_first, np_hstack, np_full_nan, np_reshape_cols,
+    np_nanmean_axis0, const_all, sq_add_arr, sq_scale_idx, sq_divz, sq_sub.
+  cbv beta iota zeta. rewrite ?Z.gtb_ltb, ?Z.geb_leb, ?map_indexer, ?repeat_const.
+  destruct (all_nan w) eqn:Hnan; destruct (zlen w =? 0) eqn:Hz; cbn [orb andb negb];
+    destruct s; cbv beta iota zeta; try reflexivity.
+  - (* last *) split_bools; first [reflexivity | exfalso; lia].
+  - (* mean *) split_bools; cbn [fst snd]; first [reflexivity | exfalso; lia].
   - (* drift *)
-    destruct ((zlen w =? 0) || all_nan w); [rewrite bridge_predict_nan; reflexivity|].
-    destruct (zlen w <? 2); [rewrite bridge_predict_nan; reflexivity|].
-    unfold np_any_isnan, np_first, np_last.
-    destruct (hd None w) as [a|]; destruct (last w None) as [b|]; cbn [existsb is_nan orb];
-      try reflexivity.
-    cbv beta iota zeta. f_equal. unfold sq_add_arr, sq_scale_idx, sq_divz, sq_sub.
-    rewrite map_indexer, !map_map. apply map_ext. intro h.
-    replace (h - 1 + 1) with h by lia. reflexivity.
+    destruct (hd None w) as [a|]; destruct (last w None) as [b|];
+      cbn [existsb is_nan orb andb negb]; split_bools; try reflexivity; try (exfalso; lia).
+    all: f_equal; rewrite ?map_map; apply map_ext; intro h;
+      replace (h - 1 + 1) with h by lia; reflexivity.
 Qed.
 
 (* ---- window selection and in-sample cutoffs of _BaseWindowForecaster ---------------------------------- *)
@@ -119,7 +107,7 @@ Proof. unfold gen_window_start. lia. Qed.
 Lemma bridge_insample_cutoff r n : gen_insample_cutoff r n = n - 2 + r.
 Proof. unfold gen_insample_cutoff. lia. Qed.
 Lemma bridge_insample_step : gen_insample_step = 1.
-Proof. reflexivity. Qed.
+Proof. unfold gen_insample_step. lia. Qed.
 
 (* `self._y.loc[start:cutoff]` on the contiguous index: positions max 0 start .. c *)
 Definition gen_window (ys : list oq) (c wl : Z) : list oq :=
@@ -168,30 +156,28 @@ Qed.
 Lemma bridge_poly_fit_intercept : gen_poly_fit_intercept = false.
 Proof. reflexivity. Qed.
 Lemma bridge_poly_degree d : gen_poly_degree d = d.
-Proof. reflexivity. Qed.
+Proof. unfold gen_poly_degree. lia. Qed.
 Lemma bridge_poly_include_bias ic : gen_poly_include_bias ic = ic.
-Proof. reflexivity. Qed.
+Proof. unfold gen_poly_include_bias. destruct ic; reflexivity. Qed.
 Lemma bridge_poly_features d ic :
   poly_k0 ic = (if gen_poly_include_bias ic then O else 1%nat) /\
   poly_m d ic = (if gen_poly_include_bias ic then Z.to_nat (gen_poly_degree d + 1)
                  else Z.to_nat (gen_poly_degree d)).
-Proof. split; reflexivity. Qed.
+Proof. rewrite bridge_poly_include_bias, bridge_poly_degree. split; reflexivity. Qed.
 
-(* the time variable at fit: np.arange(n_timepoints) with n_timepoints = last - first + 1 = n on the
-   contiguous index first = t0, last = t0 + n - 1: exactly the abscissae of the model's `points` *)
-Lemma bridge_poly_n_timepoints t0 n : gen_poly_n_timepoints t0 (t0 + n - 1) = n.
-Proof. unfold gen_poly_n_timepoints. lia. Qed.
-Lemma bridge_poly_time_axis n : gen_poly_time_axis n = zrange 0 n 1.
-Proof. reflexivity. Qed.
+(* the time variable at fit: np.arange(lo, hi) with lo = 0, hi = last - first + 1 = n on the contiguous
+   index first = t0, last = t0 + n - 1: exactly the abscissae of the model's `points` *)
+Lemma bridge_poly_time_axis t0 n : gen_poly_time_axis t0 (t0 + n - 1) = zrange 0 n 1.
+Proof. unfold gen_poly_time_axis, gen_poly_time_lo, gen_poly_time_hi. f_equal; lia. Qed.
 Definition gen_poly_points (t0 : Z) (v : list Q) : list (Q * Q) :=
-  combine (map inject_Z (gen_poly_time_axis (gen_poly_n_timepoints t0 (t0 + zlen v - 1)))) v.
+  combine (map inject_Z (gen_poly_time_axis t0 (t0 + zlen v - 1))) v.
 Lemma bridge_poly_points t0 v : gen_poly_points t0 v = points v.
-Proof. unfold gen_poly_points, points. rewrite bridge_poly_n_timepoints. reflexivity. Qed.
+Proof. unfold gen_poly_points, points. rewrite bridge_poly_time_axis. reflexivity. Qed.
 
 (* the time variable at predict: to_absolute_int(index[0], cutoff) = cutoff + r - t0; with the cutoff
    at the last training time it is the model's position n - 1 + r; the label is cutoff + r *)
 Lemma bridge_poly_origin : gen_poly_origin_pos = 0.
-Proof. reflexivity. Qed.
+Proof. unfold gen_poly_origin_pos. lia. Qed.
 Lemma bridge_poly_pred_time t0 c r : gen_poly_pred_time t0 c r = c - t0 + r.
 Proof. unfold gen_poly_pred_time, gen_fh_abs_int, gen_fh_abs. lia. Qed.
 Lemma bridge_poly_pred_time_fit t0 n r : gen_poly_pred_time t0 (t0 + n - 1) r = n - 1 + r.
